@@ -98,7 +98,7 @@ CHECKS = {
         "technique": "property-based testing (rapid): generated well-formed response messages served by a scripted in-memory server to every fluent call; oracle on the call's result type and on the error text",
         "level_text": "Generated-input exploration over the response space for each of the 26 fluent builders, Request, Batch/Unwrap, the discovery exchange inside Dial and the crypto.Signer construction: header and item counts, per-item operation, status, reason, message and payload (absent / requested / foreign / generic) are drawn independently; the call must return (panics on the caller's goroutine are captured) with an error or with the payload type of the requested operation, and a decodable failed item must surface as an error whose text carries the status, the reason (name or hex) and the message.",
         "level_note": "Responses are rendered by the reference writer (raw bytes), so operation code and payload shape can disagree; the status/reason/message obligation is checked only for responses the codec can decode.",
-        "jobs": [rapid("client", "TestC12Responses", 5000, 30000)],
+        "jobs": [rapid("client", "TestC12Responses", 5000, 30000), rapid("client", "TestC12Signer", 3000, 30000, shards=4)],
         "assumptions": ["the library has no typed error: the error text is the only carrier of status, reason and message"],
     },
     "C13": {
